@@ -88,9 +88,10 @@ func (vm *Type) Run(retResult bool) (value.Type, error) {
 		case bytecode.ADDTMP, bytecode.SUBTMP, bytecode.MULTMP, bytecode.DIVTMP:
 			src0 := vm.fetch(instr.Src0(), instr.Src0Addr(), m, ds)
 
+			acc := tmp
 			tmp, err = tmp.Arith(opCode-bytecode.ADDTMP+bytecode.ADD, src0)
 			if err != nil {
-				return vm.dumpStack(ctxp, ip, err, src0)
+				return vm.dumpStack(ctxp, ip, err, acc, src0)
 			}
 
 		case bytecode.INC:
@@ -130,9 +131,10 @@ func (vm *Type) Run(retResult bool) (value.Type, error) {
 		case bytecode.MODTMP:
 			src0 := vm.fetch(instr.Src0(), instr.Src0Addr(), m, ds)
 
+			acc := tmp
 			tmp, err = tmp.Mod(src0)
 			if err != nil {
-				return vm.dumpStack(ctxp, ip, err, src0)
+				return vm.dumpStack(ctxp, ip, err, acc, src0)
 			}
 
 		case bytecode.AND, bytecode.OR:
@@ -149,9 +151,10 @@ func (vm *Type) Run(retResult bool) (value.Type, error) {
 		case bytecode.ANDTMP, bytecode.ORTMP:
 			src0 := vm.fetch(instr.Src0(), instr.Src0Addr(), m, ds)
 
+			acc := tmp
 			tmp, err = tmp.Logic(opCode-bytecode.ANDTMP+bytecode.AND, src0)
 			if err != nil {
-				return vm.dumpStack(ctxp, ip, err, src0)
+				return vm.dumpStack(ctxp, ip, err, acc, src0)
 			}
 
 		case bytecode.LSH, bytecode.RSH:
@@ -168,9 +171,10 @@ func (vm *Type) Run(retResult bool) (value.Type, error) {
 		case bytecode.LSHTMP, bytecode.RSHTMP:
 			src0 := vm.fetch(instr.Src0(), instr.Src0Addr(), m, ds)
 
+			acc := tmp
 			tmp, err = tmp.Shift(opCode-bytecode.LSHTMP+bytecode.LSH, src0)
 			if err != nil {
-				return vm.dumpStack(ctxp, ip, err, src0)
+				return vm.dumpStack(ctxp, ip, err, acc, src0)
 			}
 
 		case bytecode.NOT:
@@ -183,9 +187,10 @@ func (vm *Type) Run(retResult bool) (value.Type, error) {
 			m.Push(val)
 
 		case bytecode.NOTTMP:
+			acc := tmp
 			tmp, err = tmp.Not()
 			if err != nil {
-				return vm.dumpStack(ctxp, ip, err)
+				return vm.dumpStack(ctxp, ip, err, acc)
 			}
 
 		case bytecode.FLIP:
@@ -198,9 +203,10 @@ func (vm *Type) Run(retResult bool) (value.Type, error) {
 			m.Push(val)
 
 		case bytecode.FLIPTMP:
+			acc := tmp
 			tmp, err = tmp.Flip()
 			if err != nil {
-				return vm.dumpStack(ctxp, ip, err)
+				return vm.dumpStack(ctxp, ip, err, acc)
 			}
 
 		case bytecode.LT, bytecode.GT, bytecode.LE, bytecode.GE:
@@ -217,9 +223,10 @@ func (vm *Type) Run(retResult bool) (value.Type, error) {
 		case bytecode.LTTMP, bytecode.GTTMP, bytecode.LETMP, bytecode.GETMP:
 			src0 := vm.fetch(instr.Src0(), instr.Src0Addr(), m, ds)
 
+			acc := tmp
 			tmp, err = tmp.Relational(opCode-bytecode.LTTMP+bytecode.LT, src0)
 			if err != nil {
-				return vm.dumpStack(ctxp, ip, err, src0)
+				return vm.dumpStack(ctxp, ip, err, acc, src0)
 			}
 
 		case bytecode.EQ, bytecode.NE:
@@ -236,9 +243,10 @@ func (vm *Type) Run(retResult bool) (value.Type, error) {
 		case bytecode.EQTMP, bytecode.NETMP:
 			src0 := vm.fetch(instr.Src0(), instr.Src0Addr(), m, ds)
 
+			acc := tmp
 			tmp, err = tmp.Eq(opCode-bytecode.EQTMP+bytecode.EQ, src0)
 			if err != nil {
-				return vm.dumpStack(ctxp, ip, err, src0)
+				return vm.dumpStack(ctxp, ip, err, acc, src0)
 			}
 
 		case bytecode.LEN:
@@ -252,9 +260,10 @@ func (vm *Type) Run(retResult bool) (value.Type, error) {
 			m.Push(val)
 
 		case bytecode.LENTMP:
+			acc := tmp
 			tmp, err = tmp.Len()
 			if err != nil {
-				return vm.dumpStack(ctxp, ip, err)
+				return vm.dumpStack(ctxp, ip, err, acc)
 			}
 
 		case bytecode.IX1:
